@@ -291,4 +291,24 @@ def stepSys (s : Sys) : Ev → Sys
 
 def Sys.init : Sys := { host := { latched := none, issued := [] }, fs := { final := [], tmp := [] }, pc := .idle, mem := none }
 
+/-! ### a rule change as the separate messages the key keeper sends to its state actor -/
+
+structure RuleCell where
+  id : Str
+  rules : Option RuleItem
+  deriving DecidableEq, Repr
+
+inductive RMsg where
+  | setId (id : Str)
+  | setRules (r : Option RuleItem)
+  deriving DecidableEq, Repr
+
+def rstep (c : RuleCell) : RMsg → RuleCell
+  | .setId i => { c with id := i }
+  | .setRules r => { c with rules := r }
+
+/-- `update_*_rule_id` then, when it reports a change, `set_*_rules` -/
+def changeProgram (c : RuleCell) (new : Option RuleItem) : List RMsg :=
+  if c.id = idOf new then [] else [.setId (idOf new), .setRules new]
+
 end Gpa.KeyKeeper
